@@ -30,6 +30,23 @@
 (*           {g1, g2 (, constant)}: the omitted parameters are any mix of  *)
 (*           scalars and local arrays, and every call -- the second one    *)
 (*           and the recursive ones included -- must find them empty.      *)
+(*  "forms"  the FORM of an argument (Resolver.tla: bare variable, (x),     *)
+(*           x "", x[length(x)], constant) at every kind of place: function *)
+(*           1 has one parameter with one direct use {none, scalar, array,  *)
+(*           length(p), length of each expression form over p} and passes   *)
+(*           p on to function 2 in any form (or a constant, or makes no     *)
+(*           call); function 2 has one parameter used {not, as scalar, as   *)
+(*           array}; the main body uses a global {not, as scalar, as        *)
+(*           array}, passes it to function 1 in any form (or a constant, or *)
+(*           makes no call) and takes length() of any form of it (or of a   *)
+(*           constant, or not at all), then prints length(g).  So every     *)
+(*           form meets a parameter that is a scalar, an array, unused, or  *)
+(*           only passed on (as a variable or inside an expression), and    *)
+(*           length().  FxWide: function 1 may also call itself, the main   *)
+(*           body may also call function 2.                                 *)
+(*  Forms    switches the forms on in family "usage" as well (arguments of  *)
+(*           every call, length() as a direct use): {} in the exhaustive    *)
+(*           universes, {"p", "e", "x"} in sampled ones.                    *)
 (*  "collect" sources with up to MaxSites independent errors on a grid of  *)
 (*           CLines lines x 3 places per line (C19a): see CollectSites.    *)
 (***************************************************************************)
@@ -43,13 +60,22 @@ CONSTANTS NP1, NP2, NP3,  \* parameters of functions 1..3 (9: the function does 
           NFm,            \* number of functions of the "multi" family
           NPf,            \* parameters of the function of the "frames" family
           FrLen,          \* BOOLEAN: "frames" also uses length(p) as a direct use and constants as arguments
+          Forms,          \* "usage": the argument forms besides the bare variable, a subset of {"p", "e", "x"}
+          FxWide,         \* BOOLEAN: "forms" with recursion in function 1 and calls of function 2 from the main body
           CLines,         \* "collect": number of source lines holding error sites
           MaxSites,       \* "collect": largest number of error sites in one source
           CKinds          \* "collect": the kinds of sites, a subset of {"comma", "type", "undef", "args"}
 
-Lvar(i) == [sc |-> "L", i |-> i]
-Gvar(i) == [sc |-> "G", i |-> i]
-Cst     == [sc |-> "C", i |-> 0]
+Lvar(i) == [sc |-> "L", i |-> i, fm |-> "v"]
+Gvar(i) == [sc |-> "G", i |-> i, fm |-> "v"]
+Cst     == [sc |-> "C", i |-> 0, fm |-> "v"]
+InForm(v, fm) == [v EXCEPT !.fm = fm]
+\* a variable as an argument: itself and in each of the expression forms fms
+AsArgs(v, fms) == {InForm(v, fm) : fm \in {"v"} \cup fms}
+AllForms == {"p", "e", "x"}
+\* direct uses that are length() of an expression form / of a constant
+LenChoice(fm) == CASE fm = "p" -> "lenp" [] fm = "e" -> "lene" [] fm = "x" -> "lenx"
+LenChoices(fms) == {LenChoice(fm) : fm \in fms}
 NPs     == IF NP2 = 9 THEN <<NP1>> ELSE IF NP3 = 9 THEN <<NP1, NP2>> ELSE <<NP1, NP2, NP3>>
 NFn     == Len(NPs)
 
@@ -60,11 +86,11 @@ ArgTuples(A, lo, hi) == UNION {Tuples(A, n) : n \in lo..hi}
 NoCall == [k |-> "nocall"]
 FuncCallOpts(f) ==
   {NoCall} \cup UNION {{[k |-> "call", f |-> g, args |-> t]
-                        : t \in ArgTuples({Cst} \cup {Lvar(i) : i \in 1..NPs[f]}, MinArgs, NPs[g])}
+                        : t \in ArgTuples({Cst} \cup UNION {AsArgs(Lvar(i), Forms) : i \in 1..NPs[f]}, MinArgs, NPs[g])}
                        : g \in 1..NFn}
 MainCallOpts ==
   {NoCall} \cup UNION {{[k |-> "call", f |-> g, args |-> t]
-                        : t \in ArgTuples({Cst} \cup {Gvar(i) : i \in 1..NG}, 1, NPs[g])}
+                        : t \in ArgTuples({Cst} \cup UNION {AsArgs(Gvar(i), Forms) : i \in 1..NG}, 1, NPs[g])}
                        : g \in 1..NFn}
 
 \* ---- slots of the "usage" family ----
@@ -79,14 +105,20 @@ UsageSlots ==
   \o <<[s |-> "rev", f |-> 0, i |-> 0]>>
 
 SlotOpts(slot, chosen) ==
-  CASE slot.s = "dir"   -> {"none", "s", "a", "len"}
+  CASE slot.s = "dir"   -> {"none", "s", "a", "len"} \cup LenChoices(Forms)
     [] slot.s = "fcall" -> FuncCallOpts(slot.f)
-    [] slot.s = "gdir"  -> {"none", "s", "a"}
+    [] slot.s = "gdir"  -> {"none", "s", "a"} \cup LenChoices(Forms)
     [] slot.s = "mcall" -> IF slot.i > 1 /\ chosen[Len(chosen)] = NoCall THEN {NoCall} ELSE MainCallOpts
     [] slot.s = "rev"   -> IF AllowRev THEN {FALSE, TRUE} ELSE {FALSE}
 
 \* ---- assembling a program from the choices ----
-UseStmt(c, v) == IF c = "none" THEN <<>> ELSE <<[k |-> c, v |-> v]>>
+UseStmt(c, v) ==
+  CASE c = "none" -> <<>>
+    [] c = "lenp" -> <<[k |-> "len", v |-> InForm(v, "p")]>>
+    [] c = "lene" -> <<[k |-> "len", v |-> InForm(v, "e")]>>
+    [] c = "lenx" -> <<[k |-> "len", v |-> InForm(v, "x")]>>
+    [] c = "lenc" -> <<[k |-> "len", v |-> Cst]>>
+    [] OTHER      -> <<[k |-> c, v |-> v]>>
 CallStmt(c)   == IF c = NoCall THEN <<>> ELSE <<[k |-> "call", f |-> c.f, args |-> c.args]>>
 Rev(seq)      == [k \in 1..Len(seq) |-> seq[Len(seq) + 1 - k]]
 
@@ -142,6 +174,25 @@ FramesProgram(ch) ==
   IN [funcs |-> <<[np |-> NPf, body |-> uses \o CallStmt(rec) \o lens]>>,
       main  |-> <<[k |-> "s", v |-> Gvar(1)], [k |-> "a", v |-> Gvar(2)]>> \o mc \o mc
                 \o <<[k |-> "len", v |-> Gvar(1)], [k |-> "len", v |-> Gvar(2)]>>]
+
+\* ---- the "forms" family ----
+FormsSlots == <<[s |-> "xdir", f |-> 1, i |-> 1], [s |-> "xfcall", f |-> 1, i |-> 0], [s |-> "xdir", f |-> 2, i |-> 1],
+                [s |-> "xgdir", f |-> 0, i |-> 1], [s |-> "xmcall", f |-> 0, i |-> 0], [s |-> "xmlen", f |-> 0, i |-> 1],
+                [s |-> "rev", f |-> 0, i |-> 0]>>
+OneArgCalls(gs, atoms) == {[k |-> "call", f |-> g, args |-> <<a>>] : g \in gs, a \in atoms}
+FormsOpts(slot) ==
+  CASE slot.s = "xdir"   -> IF slot.f = 1 THEN {"none", "s", "a", "len"} \cup LenChoices(AllForms) ELSE {"none", "s", "a"}
+    [] slot.s = "xfcall" -> {NoCall} \cup OneArgCalls(IF FxWide THEN {1, 2} ELSE {2}, {Cst} \cup AsArgs(Lvar(1), AllForms))
+    [] slot.s = "xgdir"  -> {"none", "s", "a"}
+    [] slot.s = "xmcall" -> {NoCall} \cup OneArgCalls(IF FxWide THEN {1, 2} ELSE {1}, {Cst} \cup AsArgs(Gvar(1), AllForms))
+    [] slot.s = "xmlen"  -> {"none", "len", "lenc"} \cup LenChoices(AllForms)
+    [] slot.s = "rev"    -> IF AllowRev THEN {FALSE, TRUE} ELSE {FALSE}
+FormsProgram(ch) ==
+  LET ord(seq) == IF ch[7] THEN Rev(seq) ELSE seq
+  IN [funcs |-> <<[np |-> 1, body |-> ord(UseStmt(ch[1], Lvar(1)) \o CallStmt(ch[2]))],
+                  [np |-> 1, body |-> UseStmt(ch[3], Lvar(1))]>>,
+      main  |-> ord(UseStmt(ch[4], Gvar(1)) \o CallStmt(ch[5]) \o UseStmt(ch[6], Gvar(1)))
+                \o <<[k |-> "len", v |-> Gvar(1)]>>]
 
 \* ---- the "collect" family (Resolver.tla, section 4) ----
 \* CLines lines of three places each; a place holds an error site of some kind or a harmless statement; at most
